@@ -37,6 +37,9 @@ CHECKS = {
  "C16": ("exploration", "§9 C16",
    "Simulated runs with 1-2 decorators sharing targets (with / without status subresource, own labels, annotations, status, spec, foreign finalizers), label / annotation selectors incl. expressions, decorate programs driven by the target (label and annotation maps with additions, overwrites and nulls; status null / set / different; finalized), target edits, deletion with every propagation policy and re-creation under the same name, attachments deleted, drifted, unmarked or made by someone else; every accepted write on a target is diffed against its pre-state: only label / annotation keys named in that sync's response (null = absent), .status unless the response's status is null, and the decorator's own finalizer may change; a sync whose requests change nothing is a violation; hook calls only for selected (or finalizer-carrying) objects; attachments shown, updated or deleted only with controller reference to the target and this decorator's marker.",
    "deterministic simulation, pre/post-state diff oracle per accepted write"),
+ "C10": ("exploration", "§9 C10",
+   "Simulated parent life cycles for composite (incl. several live revisions) and decorator controllers with a finalize hook: match / unmatch the controller's selector, delete with foreground / orphan / background propagation, delete while unmatched, finalize hook removed from / added to the controller object later (a real Stop/Start), teardown programs (all at once, step by step, finalized answers that depend on a revisioned field), 409/500/connection-error/response-lost faults on the finalizer add and remove requests, lagging caches. Temporal oracle over the whole history: the finalizer is on the parent (in the store) when a child is created for it; it is never added to a parent that was being deleted in every view of the sync; deleting or unmatched parents go to the finalize hook with finalizing:true (else sync hook, false); the finalizer is removed only after finalized:true from every live revision; an unfinalizable deleting parent (no hook, finalizer gone, GC finalizer) has no child written; a failed add stops the sync; at quiescence no leftover finalizer without a finalize hook and no selected live parent without it when one is configured.",
+   "deterministic simulation with fault injection on finalizer requests, temporal history oracle"),
 }
 
 NA = {
